@@ -18,8 +18,9 @@ from .overhang_ref import overhang_jvp
 
 
 class Cfg:
-    def __init__(self, name, key, build, x0, dirs=None, tangent=None, tol=1e-8, seed_gen=None, note="", nonsmooth_guard=None):
+    def __init__(self, name, key, build, x0, dirs=None, tangent=None, tol=1e-8, seed_gen=None, note="", nonsmooth_guard=None, ref_y=None):
         self.name, self.key, self.build, self.x0 = name, key, build, x0
+        self.ref_y = ref_y       # optional closed form of the outputs (a reference tangent is only as good as the response it models)
         self.dirs = dirs or (lambda rng: [rand_like(rng, x) for x in x0])
         self.tangent, self.tol, self.seed_gen, self.note = tangent, tol, seed_gen, note
 
@@ -544,8 +545,11 @@ def gen_math(rng, tier):
     def tangent(x0_, y0, v):
         val, tan = tree.eval([np.asarray(x) for x in x0_], [None if vi is None else np.asarray(vi) for vi in v])
         return [np.broadcast_to(tan, np.shape(y0[0])) if np.shape(tan) != np.shape(y0[0]) else tan]
+    def ref_y(x0_):
+        val, _ = tree.eval([np.asarray(x) for x in x0_], [None] * len(x0_))
+        return [val]
     return Cfg("MathGeneral", f"MathGeneral/nvar{nvar}/cplx{cplx}/{'-'.join(str(s) for s in shapes)}", build, x0, tangent=tangent,
-               note=expr)
+               note=expr, ref_y=ref_y)
 
 
 EINSUMS = [("i->", 1), ("ij->", 1), ("ii->", 1), ("i,i->i", 2), ("i,i->", 2), ("i,j->ij", 2), ("ij,j->i", 2), ("i,ij,j->", 3),
@@ -575,7 +579,7 @@ def gen_einsum(rng, tier):
             tot = tot + np.einsum(expr, *args)
         return [tot]
     return Cfg("EinSum", f"EinSum/{expr}/cplx{cplx}", lambda: pym.EinSum([_S(f"a{i}", x) for i, x in enumerate(x0)], pym.Signal("y"), expression=expr),
-               x0, tangent=tangent)
+               x0, tangent=tangent, ref_y=lambda x0_: [np.einsum(expr, *x0_)])
 
 
 def gen_concat(rng, tier):
@@ -626,7 +630,8 @@ def gen_complex(rng, tier):
         def tangent(x0_, y0, v):
             z = np.asarray(x0_[0])
             return [np.real(np.conj(z) * v[0]) / np.abs(z)]
-        return Cfg(kind, f"{kind}/{sh}/cx{c}", lambda: pym.ComplexNorm(_S("z", x0[0]), pym.Signal("a")), x0, tangent=tangent, dirs=dirs)
+        return Cfg(kind, f"{kind}/{sh}/cx{c}", lambda: pym.ComplexNorm(_S("z", x0[0]), pym.Signal("a")), x0, tangent=tangent, dirs=dirs,
+                   ref_y=lambda x0_: [np.abs(np.asarray(x0_[0]))])
     cl = pym.RealPart if kind == "RealPart" else pym.ImagPart
     return Cfg(kind, f"{kind}/{sh}/cx{c}", lambda: cl(_S("z", x0[0]), pym.Signal("a")), x0, dirs=dirs)
 
